@@ -94,9 +94,15 @@ def check_C01(ctx):
     rep.rule("W3", "variant->tag map injective; reader tag->variant map is its inverse; catch-all rejects")
     rep.rule("W4", "every raw block is immediately preceded by the alignment point of its own unit")
     rep.rule("W5", "every written type has a reader or is a write-only view")
-    wire_props(ctx, ("full",), ("W1", "W2", "W3", "W4", "W5", "PROB"), 56)
+    ts = wire_props(ctx, ("full",), ("W1", "W2", "W3", "W4", "W5", "PROB"), 56)
+    rep.rule("W-REFUSE", "a reader path that panics depending on a value it read: the writer writes constants under a selector on the value at that position (the refused values are a declared exclusion; today: exhausted inclusive ranges)")
+    nref = sum(rules_wire.check_refusals(t, "full", rep) for t in ts)
+    rep.floor("value-dependent reader refusals examined", nref, 1)
     rep.rule("ALIGN", "the writer's align and the stream reader's align move by the same amount pad_align_to(position, unit(T)) (the alignment point is an atom of the wire terms; its two implementations are compared here)")
     align_pair(ctx, ("default WriteWithNames", "ReaderWithPos"))
+    rep.rule("ERR-WHO", "full-copy readers and helpers construct no error of their own except InvalidTag (for a tag no variant writes)")
+    nr = rules_err.rule_reader_refusals(ctx.universe("default", CORPUS), rep, "full")
+    rep.floor("full-copy reader functions scanned", nr, 80)
     if ctx.tier == "thorough":
         generated_corpus(ctx, rep, ("W1", "W2", "W3", "W4", "W5", "PROB"), modes=("full",))
     return ("Static sibling agreement (writer vs full-copy reader) of every built-in impl: wire terms extracted by abstract "
@@ -108,9 +114,15 @@ def check_C02(ctx):
     rep = ctx.rep
     rep.rule("W1", "normalised wire term of _serialize_inner == that of _deserialize_eps_inner, per static case (Zero/Deep, size_of==0)")
     rep.rule("WIRE-*", "cursor discipline of the eps reader: every peek is consumed by a skip of the same amount, position advanced by the same n")
-    wire_props(ctx, ("eps",), ("W1", "W2", "W3", "W4", "PROB"), 56)
+    ts = wire_props(ctx, ("eps",), ("W1", "W2", "W3", "W4", "PROB"), 56)
+    rep.rule("W-REFUSE", "a reader path that panics depending on a value it read: the writer writes constants under a selector on the value at that position")
+    nref = sum(rules_wire.check_refusals(t, "eps", rep) for t in ts)
+    rep.floor("value-dependent reader refusals examined", nref, 1)
     rep.rule("ALIGN", "the writer's align and the slice reader's align move by the same amount pad_align_to(position, unit(T))")
     align_pair(ctx, ("default WriteWithNames", "SliceWithPos"))
+    rep.rule("ERR-WHO", "eps readers and helpers construct no error of their own except InvalidTag (for a tag no variant writes)")
+    nr = rules_err.rule_reader_refusals(ctx.universe("default", CORPUS), rep, "eps")
+    rep.floor("eps reader functions scanned", nr, 80)
     if ctx.tier == "thorough":
         generated_corpus(ctx, rep, ("W1", "W2", "W3", "W4", "PROB"), modes=("eps",))
     rep.rule("WITNESS", "the documented DeserType substitution as generic compile-pass witnesses (proved by rustc for all instantiations) with negative controls")
@@ -746,6 +758,8 @@ def check_C11(ctx):
                              "short reads must be handled by read_exact, whose contract turns a premature end of file into an error")
     n = rules_loader.rule_maplen(u, rep)
     rep.floor("mapping length/offset sites in Deserialize::mmap", n, 2)
+    rep.rule("STORE", "store writes nothing but the serialized stream (one serialize call): bytes no reader consumes would make a cut inside them invisible")
+    rules_loader.rule_store(u, rep)
     return ("Static content of 'a strict prefix is never turned into a value': sibling agreement of the byte consumption, error discipline of every read, closed list of ways "
             "the eps reader touches the input (bounds-checked), exact mapping length. Which error each individual cut yields is not decided.")
 
@@ -875,6 +889,9 @@ def check_C13(ctx):
     rep.rule("ERR-DROP", "MIR after drop elaboration: no Result<_, crate error> produced by a call or assignment reaches the Drop of its local (scope end or overwrite) on a normal path without having been moved, matched or borrowed")
     nd = rules_err.rule_err_drop(u, rep, SER_SCOPE, errs=rules_err.SER_ERRS)
     rep.floor("Result-typed MIR locals tracked in ser/impls", nd, 100)
+    rep.rule("FAIL-FAST", "MIR: after a call returning Result<_, ser::Error> no other such call is reached on a normal path before the first result has been moved, matched or borrowed (no write is issued after a rejected one)")
+    nf = rules_err.rule_fail_fast(u, rep, SER_SCOPE, errs=rules_err.SER_ERRS)
+    rep.floor("fallible serialization calls whose successor paths were followed", nf, 100)
     rules_err.rule_who_calls(u, rep, {"std::io::Write::write", "std::io::Write::write_vectored"}, SER_SCOPE, "S-WHO",
                              "short writes must be handled by write_all")
     m = rules_loader.rule_err_to_ok(u, rep, SER_SCOPE, errs=rules_err.SER_ERRS)
